@@ -631,6 +631,34 @@ func (g *Gen) heapStable() bool {
 
 func heapPureUF(fn *ssa.Function) string { return "hp!" + sanitize(fullName(fn)) }
 
+// heapPureResults builds the uninterpreted application(s) standing for the result(s) of a heappure function.
+func (g *Gen) heapPureResults(fn *ssa.Function, args []Val) ([]Val, Val) {
+	uf := heapPureUF(fn)
+	var sorts, as []string
+	for _, a := range args {
+		sorts = append(sorts, a.Sort)
+		as = append(as, a.S)
+	}
+	nres := fn.Signature.Results().Len()
+	if nres == 0 {
+		panic(specError{"heappure contract on a function without results: " + fullName(fn)})
+	}
+	var results []Val
+	for k := 0; k < nres; k++ {
+		rt := fn.Signature.Results().At(k).Type()
+		un := uf
+		if nres > 1 {
+			un = fmt.Sprintf("%s!%d", uf, k)
+		}
+		g.declFun(un, sorts, g.sortOf(rt))
+		results = append(results, Val{S: app(un, as...), Sort: g.sortOf(rt), GT: rt})
+	}
+	if nres == 1 {
+		return results, results[0]
+	}
+	return results, Val{Sort: "Tuple", GT: fn.Signature.Results(), Tuple: results}
+}
+
 // applyHeapPure: a call of a function declared `opt heappure` (deterministic, modifies nothing, reads the
 // heap). Inside a heap-stable function the result is hp!F(args) and the callee's ensures are assumed once
 // for these arguments in the current heap (this is the induction hypothesis when F calls itself; the
@@ -642,22 +670,12 @@ func (f *Frame) applyHeapPure(fn *ssa.Function, fc *FuncContract, args []Val, in
 		g.note("heap-dependent pure function " + name + " called from a function that may modify the heap: result havocked")
 		return f.havocCall(&ModSet{Maps: map[string]bool{}}, rt, fn.Name())
 	}
-	if fn.Signature.Results().Len() != 1 {
-		panic(specError{"heappure contract needs exactly one result: " + name})
-	}
-	uf := heapPureUF(fn)
-	var sorts, as []string
-	for _, a := range args {
-		sorts = append(sorts, a.Sort)
-		as = append(as, a.S)
-	}
-	g.declFun(uf, sorts, g.sortOf(rt))
-	r := Val{S: app(uf, as...), Sort: g.sortOf(rt), GT: rt}
+	results, r := g.heapPureResults(fn, args)
 	g.calleeContracts[name] = true
-	if g.pureSeen[r.S] {
+	if g.pureSeen[results[0].S] {
 		return r
 	}
-	g.pureSeen[r.S] = true
+	g.pureSeen[results[0].S] = true
 	bind := map[string]Val{}
 	for i, p := range fn.Params {
 		if i < len(args) {
@@ -665,7 +683,7 @@ func (f *Frame) applyHeapPure(fn *ssa.Function, fc *FuncContract, args []Val, in
 		}
 	}
 	pre := f.cur
-	env := &Env{g: g, f: nil, heap: pre, old: pre, bind: bind, results: []Val{r}, pkg: fn.Pkg.Pkg, reach: f.curReach}
+	env := &Env{g: g, f: nil, heap: pre, old: pre, bind: bind, results: results, pkg: fn.Pkg.Pkg, reach: f.curReach}
 	k := 0
 	for _, c := range fc.Clauses {
 		switch c.Kind {
@@ -680,12 +698,18 @@ func (f *Frame) applyHeapPure(fn *ssa.Function, fc *FuncContract, args []Val, in
 			k++
 		}
 	}
+	var defs []string
+	for _, rv := range results {
+		defs = append(defs, rv.S)
+	}
 	for _, c := range fc.Clauses {
 		if c.Kind == "ensures" {
-			g.assumeDef(r.S, implies(f.curReach, env.trBool(c.E)))
+			g.assume(implies(f.curReach, env.trBool(c.E)))
 		}
 	}
-	f.assumeTypeInv(r)
+	for _, rv := range results {
+		f.assumeTypeInv(rv)
+	}
 	if fc.Trusted {
 		g.Assumptions["trusted contract (assumed, body not verified): "+name+": "+clauseTexts(fc)] = true
 	}
